@@ -31,6 +31,7 @@ package main
 
 import (
 	"context"
+	"encoding/json"
 	"fmt"
 	"os"
 	"path/filepath"
@@ -38,6 +39,7 @@ import (
 	"sort"
 	"strings"
 	"sync"
+	"time"
 
 	"github.com/grafana/cog/internal/ast"
 	"github.com/grafana/cog/internal/codegen"
@@ -155,12 +157,49 @@ func main() {
 	}
 
 	// ---- generation (real pipeline, isolated workers) -----------------------------------------
-	units := make([]genrun.Unit, len(cases))
-	for i, c := range cases {
-		units[i] = c.Unit
+	// Cases in which a foreign object refers to itself are known to make the
+	// unchanged tree loop forever in the schema jenny (a hang is C04's business):
+	// they run on their own workers under a short timeout (a run takes
+	// milliseconds) and are counted as blocked when they do not come back.
+	var units []genrun.Unit
+	var suspects []*kase
+	for _, c := range cases {
+		if c.HangSuspect {
+			suspects = append(suspects, c)
+		} else {
+			units = append(units, c.Unit)
+		}
+	}
+	suspectRes := make([]*genrun.Result, len(suspects))
+	var swg sync.WaitGroup
+	for i, c := range suspects {
+		swg.Add(1)
+		go func(i int, c *kase) {
+			defer swg.Done()
+			wk := &vx.Worker{Args: []string{"--genrun-worker", ws.Dir}, Env: []string{"GOMAXPROCS=2"}, Timeout: 20 * time.Second}
+			defer wk.Close()
+			b, _ := json.Marshal(c.Unit)
+			resp, died := wk.Do(b)
+			res := &genrun.Result{ID: c.Unit.ID}
+			switch {
+			case died && wk.Hung:
+				res.Status, res.Err = "hang", "no answer within 20 s (a run takes milliseconds)"
+			case died:
+				res.Status, res.Err = "fatal", "the process died"
+			default:
+				if err := json.Unmarshal(resp, res); err != nil {
+					vx.Fatalf("bad worker answer: %v", err)
+				}
+			}
+			suspectRes[i] = res
+		}(i, c)
 	}
 	results := ws.Generate(units)
-	transitions += len(units)
+	swg.Wait()
+	for i, c := range suspects {
+		results[c.Unit.ID] = suspectRes[i]
+	}
+	transitions += len(cases)
 	// A run that fails (a refusal or crash outside the schema jennies belongs to
 	// C01 / C04) is repeated without the Go output, so that clauses 1, 2 and 4
 	// still judge what the two schema jennies emit for that input.
@@ -168,7 +207,7 @@ func main() {
 	retryCase := map[string]*kase{}
 	for _, c := range cases {
 		res := results[c.Unit.ID]
-		if res.Status != "ok" && !strings.Contains(res.PanicSite, "jennies/jsonschema") && !strings.Contains(res.PanicSite, "jennies/openapi") {
+		if res.Status != "ok" && res.Status != "hang" && !strings.Contains(res.PanicSite, "jennies/jsonschema") && !strings.Contains(res.PanicSite, "jennies/openapi") {
 			u := c.Unit
 			u.ID += "n"
 			u.Go = nil
@@ -237,21 +276,27 @@ func main() {
 			debugf("does not compile %s: %s", c.Witness(), c.CompileErrs[0])
 			continue
 		}
-		has := false
-		for _, d := range ws.GoPkgDirs(c.Result) {
-			if d == c.Unit.ID+"/"+gschema.Pkg {
-				has = true
+		for _, t := range c.Targets {
+			if c.DriverPkgs[t.Pkg] {
+				continue
 			}
+			has := false
+			for _, d := range ws.GoPkgDirs(c.Result) {
+				if d == c.Unit.ID+"/"+t.Pkg {
+					has = true
+				}
+			}
+			if !has {
+				continue
+			}
+			api, err := ws.ParseGoAPI(c.Unit.ID + "/" + t.Pkg)
+			if err != nil {
+				continue
+			}
+			c.DriverPkgs[t.Pkg] = true
+			pkgs = append(pkgs, genrun.DriverPkg{Key: c.driverKey(t.Pkg), Import: prefix + t.Pkg, API: api})
 		}
-		if !has {
-			continue
-		}
-		api, err := ws.ParseGoAPI(c.Unit.ID + "/" + gschema.Pkg)
-		if err != nil {
-			continue
-		}
-		c.InDriver = true
-		pkgs = append(pkgs, genrun.DriverPkg{Key: c.Unit.ID, Import: prefix + gschema.Pkg, API: api})
+		c.InDriver = c.DriverPkgs[gschema.Pkg]
 	}
 	driver, err := ws.BuildDriver(pkgs, nil)
 	if err != nil {
@@ -385,13 +430,23 @@ func main() {
 
 	// ---- clause (3): Go encodings validate against the emitted JSON Schema ---------------------
 	validated := 0
+	type c3 struct {
+		c *kase
+		t target
+	}
+	var c3s []c3
 	for _, c := range cases {
-		if c.Result.Status != "ok" {
-			continue
+		if c.Result.Status == "ok" {
+			for _, t := range c.Targets {
+				c3s = append(c3s, c3{c, t})
+			}
 		}
+	}
+	for _, x := range c3s {
+		c, tgt := x.c, x.t
 		var d *emitted
 		for _, e := range byCase[c] {
-			if e.kind == "jsonschema" && e.pkg == gschema.Pkg {
+			if e.kind == "jsonschema" && e.pkg == tgt.Pkg {
 				d = e
 			}
 		}
@@ -405,14 +460,16 @@ func main() {
 		case len(c.CompileErrs) > 0:
 			bump("clause3 blocked_by=C02 (generated Go does not compile)")
 			continue
-		case !c.InDriver:
+		case !c.DriverPkgs[tgt.Pkg]:
 			bump("clause3 blocked: no Go package for p")
 			continue
 		case !d.view.jsOK:
 			bump("clause3 blocked: emitted JSON Schema does not compile")
 			continue
 		}
-		rootName := c.Schema.Objs[0].Name
+		rootName := tgt.Name
+		rootType := c.driverKey(tgt.Pkg) + "." + tgt.Name
+		abstract := c.rooted(tgt.Name)
 		if _, ok := d.view.Defs[rootName]; !ok {
 			bump("clause3 blocked: no definition for the root object")
 			continue
@@ -455,7 +512,7 @@ func main() {
 				map[string]any{"doc": doc, "encoding": encoding, "emitted": d.text})
 		}
 		// the default constructor
-		if resp, died := driver.Do(map[string]any{"op": "default", "type": c.RootType()}); !died {
+		if resp, died := driver.Do(map[string]any{"op": "default", "type": rootType}); !died {
 			if enc, ok := resp["json"].(string); ok && resp["encode_err"] == nil && resp["ctor_panic"] == nil {
 				transitions++
 				judge("default constructor", "New"+rootName+"()", enc)
@@ -463,14 +520,14 @@ func main() {
 				bump("clause3 no default constructor / encoding error")
 			}
 		}
-		vals, _ := c.Schema.Validators()
-		for _, doc := range c.Schema.Documents() {
+		vals, _ := abstract.Validators()
+		for _, doc := range abstract.Documents() {
 			accepted, agree := gschema.Accepted(vals, doc)
 			if !agree || !accepted {
 				bump("clause3 documents outside C01's set")
 				continue
 			}
-			resp, died := driver.Do(map[string]any{"op": "roundtrip", "type": c.RootType(), "doc": doc})
+			resp, died := driver.Do(map[string]any{"op": "roundtrip", "type": rootType, "doc": doc})
 			transitions++
 			if died {
 				bump("clause3 blocked: generated code kills the process (C01)")
@@ -495,10 +552,16 @@ func main() {
 		sk = append(sk, fmt.Sprintf("%s=%d", f, n))
 	}
 	sort.Strings(sk)
-	twoPkg := 0
+	twoPkg, threePkg, hangs := 0, 0, 0
 	for _, c := range cases {
 		if c.TwoPkg() {
 			twoPkg++
+		}
+		if c.ThreePkg() {
+			threePkg++
+		}
+		if c.Result != nil && c.Result.Status == "hang" {
+			hangs++
 		}
 	}
 	py.close()
@@ -529,7 +592,9 @@ func main() {
 		"abstract_schemas":              len(schemas),
 		"schema_format_cases":           len(cases),
 		"two_package_cases":             twoPkg,
-		"emitted_documents":             len(docs),
+		"three_package_cases":           threePkg,
+		"generation_hangs_counted_as_blocked_C04":       hangs,
+		"emitted_documents":                             len(docs),
 		"go_encodings_validated_against_emitted_schema": validated,
 		"counts":          cnt,
 		"formats_skipped": sk,
